@@ -1,30 +1,67 @@
 import Ecal.Model.Parser
 /-!
-Prototype model of the interpreter core (pinned commit, unrepaired): values, scope tree with
-named child reuse and dotted access paths, operators, statements, user functions, try, a few
-builtins.  `Sig.panic` = Go runtime panic, `Sig.unsupported` = outside this prototype.
+Executable model of the interpreter core of krotik/ecal (`/repo/interpreter`, `/repo/scope`) at the
+CURRENT commit (all `fix:` commits applied): values with a heap (lists are Go slices: backing array +
+length, maps by reference), the scope tree with named child reuse, flattened access paths, `Validate`,
+operators, statements, user functions, try, builtins, one-pass string interpolation.
+
+Only the TYPES `Node`/`Tok` of the parser model are used; the tree that is evaluated is the one the
+real Go parser produced (see `Ecal/Drivers/EvalCommon.lean`).  Embedded expressions of interpolating
+string literals are looked up in `St.interp` (code text ↦ tree / replacement text), also produced by
+the real parser.
+
+Outcome of a run: value | `Sig.err` (RuntimeError / RuntimeErrorWithDetail) | `Sig.plainErr` (other Go
+error) | `Sig.ret` (returnValue) | `Sig.iter` (ErrIsIterator with the value that travels with it) |
+`Sig.panic` (Go runtime panic) | `Sig.fuel` | `Sig.unsupported` (outside this model).
+
+The control-flow skeleton is factored into combinators that are NOT part of the mutual block
+(`ifChain`, `guardLoop`, `iterLoop`, `tryCore`, `dispatchExcept`, `tryFinally`, `callCore`,
+`raiseSig`); the evaluator calls them with closures over itself.  The C04 theorems are about these
+combinators.
 -/
 namespace Ecal.Ev
 open Ecal.Lex Ecal.Parse
 
 inductive Val where
   | null | bool (b : Bool) | num (f : Float) | str (s : List Nat)
-  | list (ref : Nat) | map (ref : Nat) | func (id : Nat) | builtin (name : String)
+  | list (ref : Nat) (len : Nat)      -- Go slice: backing array `ref` (its length is the capacity), length
+  | map (ref : Nat) | func (id : Nat) | builtin (name : String)
+  | opaque (what : String)            -- a value this model does not know (error texts, traces)
   deriving Inhabited
 
 structure RtErr where
   type : String
   line : Nat
   pos  : Int
-  deriving Repr, Inhabited
+  deriving Repr, Inhabited, DecidableEq
 
 inductive Sig where
-  | err (e : RtErr) (data : Val)      -- RuntimeError / RuntimeErrorWithDetail
+  /-- `*util.RuntimeError` (`wd = none`) or `*util.RuntimeErrorWithDetail` (`wd = some (detail, data)`, from `raise`) -/
+  | err (e : RtErr) (wd : Option (List Nat × Val))
   | plainErr (msg : String)           -- a non-runtime Go error (fmt.Errorf) travelling up unwrapped
-  | ret (e : RtErr) (v : Val)         -- returnValue
-  | iter (fromV toV step cur : Float) (first : Bool)   -- ErrIsIterator from range()
+  | ret (e : RtErr) (v : Val)         -- *returnValue
+  | iter (e : RtErr) (cur : Float)    -- RuntimeError of type ErrIsIterator together with the returned value
   | panic | fuel | unsupported (why : String)
   deriving Inhabited
+
+def tBreak := "End of iteration was reached"
+def tContinue := "End of iteration step - Continue iteration"
+def tIsIter := "Function is an iterator"
+def tReturn := "*** return ***"
+
+namespace Sig
+/-- process-level outcomes that no ECAL construct can intercept -/
+def isFatal : Sig → Bool
+  | .panic => true | .fuel => true | .unsupported _ => true | _ => false
+def isBreak : Sig → Bool
+  | .err e none => e.type == tBreak | _ => false
+def isContinue : Sig → Bool
+  | .err e none => e.type == tContinue | _ => false
+/-- tryRuntime.isControlFlow -/
+def isControl : Sig → Bool
+  | .ret _ _ => true
+  | s => s.isBreak || s.isContinue
+end Sig
 
 structure Scope where
   name : String
@@ -39,12 +76,29 @@ structure FuncRec where
   declScope : Nat
   deriving Inhabited
 
+/-- state of one `range` call site inside one instance-state map -/
+structure RangeSt where
+  line : Nat
+  col : Int
+  fr : Float
+  to : Float
+  step : Float
+  cur : Float
+
+inductive InterpEntry where
+  | ast (n : Node)                 -- parsed and validated by the real parser / Validate
+  | text (repl : List Nat)         -- parse or validation error: the replacement text (`#…`)
+  deriving Inhabited
+
 structure St where
-  lists : Array (List Val) := #[]
+  lists : Array (List Val) := #[[]]          -- slot 0: the nil slice
   maps : Array (List (Val × Val)) := #[]
   scopes : Array Scope := #[]
   funcs : Array FuncRec := #[]
-  log : Array (List Nat) := #[]
+  log : Array String := #[]                   -- ordered: marker calls and log/error/debug output
+  isStore : Array (List RangeSt) := #[[]]     -- instance-state maps (`is`)
+  curIs : Nat := 0
+  interp : List (List Nat × InterpEntry) := []
 
 abbrev M := ExceptT Sig (StateM St)
 
@@ -52,6 +106,128 @@ abbrev M := ExceptT Sig (StateM St)
 def attemptE {α : Type} (m : M α) : M (Except Sig α) :=
   ExceptT.mk (do let r ← m.run; pure (Except.ok r))
 
+/-! ### control-flow combinators (outside the mutual block) -/
+
+/-- ifRuntime.Eval: guards in order, the first whose value is `true` selects its block -/
+def ifChain : List (M Val × M Val) → M Val
+  | [] => pure Val.null
+  | (g, b) :: rest => do
+    match ← g with
+    | .bool true => b
+    | _ => ifChain rest
+
+/-- loopRuntime.Eval, guard form: `continue` ends the step, `break` (also one leaking out of the guard) the loop -/
+def guardLoop (guard body : M Val) : Nat → M Val
+  | 0 => throw Sig.fuel
+  | f+1 => do
+    match ← attemptE guard with
+    | .ok (.bool true) =>
+      match ← attemptE body with
+      | .ok _ => guardLoop guard body f
+      | .error e =>
+        if e.isContinue then guardLoop guard body f
+        else if e.isBreak then pure Val.null
+        else throw e
+    | .ok _ => pure Val.null
+    | .error e => if e.isBreak then pure Val.null else throw e
+
+/-- loopRuntime.handleIterator: `next` is the iterator (it signals its end with a break signal),
+    `bind` sets the loop variables (its errors leave the loop at once), then the block runs -/
+def iterLoop {σ : Type} (next : σ → M (Val × σ)) (bind : Val → M Unit) (body : M Val) : Nat → σ → M Val
+  | 0, _ => throw Sig.fuel
+  | f+1, s => do
+    match ← attemptE (next s) with
+    | .ok (v, s') =>
+      bind v
+      match ← attemptE body with
+      | .ok _ => iterLoop next bind body f s'
+      | .error e =>
+        if e.isContinue then iterLoop next bind body f s'
+        else if e.isBreak then pure Val.null
+        else throw e
+    | .error e =>
+      if e.isContinue then iterLoop next bind body f s
+      else if e.isBreak then pure Val.null
+      else throw e
+
+/-- an except clause: `none` = does not handle this error, `some v` = handled -/
+abbrev Handler := Sig → M (Option Val)
+
+/-- the loop over the except clauses in tryRuntime.Eval: the first clause that handles the error wins,
+    an error no clause handles travels on unchanged -/
+def dispatchExcept : List Handler → Sig → M Val
+  | [], e => throw e
+  | h :: hs, e => do
+    match ← h e with
+    | some v => pure v
+    | none => dispatchExcept hs e
+
+/-- tryRuntime.Eval without the deferred finally -/
+def tryCore (body : M Val) (handlers : List Handler) (otherwise : Option (M Val)) : M Val := do
+  match ← attemptE body with
+  | .ok v =>
+    match otherwise with
+    | some o => do let _ ← o; pure v
+    | none => pure v
+  | .error e =>
+    if e.isFatal || e.isControl then throw e
+    else dispatchExcept handlers e
+
+/-- `defer finally.Eval(...)`: runs after the rest on every way out, its value and error are dropped
+    (only a process-level outcome of the finally block itself surfaces) -/
+def tryFinally (main : M Val) (fin : Option (M Val)) : M Val := do
+  let r ← attemptE main
+  match fin with
+  | some fi =>
+    let skip := match r with
+      | .error Sig.fuel => true | .error (Sig.unsupported _) => true | _ => false
+    if !skip then
+      match ← attemptE fi with
+      | .error e => if e.isFatal then throw e
+      | .ok _ => pure ()
+  | none => pure ()
+  match r with
+  | .ok v => pure v
+  | .error e => throw e
+
+/-- function.Run after parameter binding: a return signal becomes the value of the call -/
+def callCore (body : M Val) : M Val := do
+  match ← attemptE body with
+  | .ok v => pure v
+  | .error (Sig.ret _ v) => pure v
+  | .error e => throw e
+
+/-- raise(type, detail, data) -/
+def raiseSig (type : String) (detail : List Nat) (data : Val) (line : Nat) (pos : Int) : Sig :=
+  Sig.err ⟨type, line, pos⟩ (some (detail, data))
+
+/-- the type test of a typed except clause: the strings are evaluated in order until one equals the
+    type of the error -/
+def typedMatch (ty : String) (toName : List Nat → String) : List (M Val) → M Bool
+  | [] => pure false
+  | s :: ss => do
+    match ← s with
+    | .str b => if toName b == ty then pure true else typedMatch ty toName ss
+    | _ => typedMatch ty toName ss
+
+/-- the arithmetic the range iterator needs; the evaluator uses `floatOps`, the theorems `intOps` -/
+structure NumOps (α : Type) where
+  lt : α → α → Bool
+  eq : α → α → Bool
+  add : α → α → α
+def floatOps : NumOps Float := ⟨fun a b => a < b, fun a b => a == b, fun a b => a + b⟩
+def intOps : NumOps Int := ⟨fun a b => a < b, fun a b => a == b, fun a b => a + b⟩
+
+/-- rangeFunc's end test: `cur` is beyond the (inclusive) end -/
+def rangeDone {α : Type} (o : NumOps α) (fr to cur : α) : Bool :=
+  (o.lt fr to && o.lt to cur) || (o.lt to fr && o.lt cur to) || (o.eq fr to && !o.eq cur fr)
+
+/-- the values a range iterator delivers (`n` bounds the number of steps) -/
+def rangeVals {α : Type} (o : NumOps α) (fr to step : α) : Nat → α → List α
+  | 0, _ => []
+  | n+1, cur => if rangeDone o fr to cur then [] else cur :: rangeVals o fr to step n (o.add cur step)
+
+/-! ### nodes -/
 def tokOf (n : Node) : M Tok := match n.tok with | some t => pure t | none => throw Sig.panic
 def child (n : Node) (i : Nat) : M Node :=
   match n.children[i]? with
@@ -60,47 +236,143 @@ def child (n : Node) (i : Nat) : M Node :=
 
 def rtErr (type : String) (n : Node) : Sig :=
   match n.tok with
-  | some t => Sig.err ⟨type, t.line, t.col⟩ Val.null
-  | none => Sig.err ⟨type, 0, 0⟩ Val.null
+  | some t => Sig.err ⟨type, t.line, t.col⟩ none
+  | none => Sig.err ⟨type, 0, 0⟩ none
+
+def plain (msg : String) : Sig := Sig.plainErr msg
 
 /-! ### values -/
 def isIntegral (f : Float) : Bool := f.floor == f && f.abs < 1e21
 def natToDec (n : Nat) : List Nat := (toString n).toUTF8.toList.map (·.toNat)
-/-- fmt.Sprint for the values this prototype supports -/
-def sprint (v : Val) : M (List Nat) :=
-  match v with
-  | .null => pure (str "<nil>")
-  | .bool true => pure (str "true") | .bool false => pure (str "false")
-  | .str s => pure s
-  | .num f =>
-    if isIntegral f then
-      let neg := f < 0 || (f == 0 && (1 / f) < 0)
-      pure ((if neg then [45] else []) ++ natToDec f.abs.toUInt64.toNat)
-    else throw (Sig.unsupported "float formatting")
-  | _ => throw (Sig.unsupported "container formatting")
 
-/-- Go `==` on interface values -/
-def goEq (a b : Val) : M Bool :=
-  match a, b with
-  | .null, .null => pure true
-  | .bool x, .bool y => pure (x == y)
-  | .num x, .num y => pure (x == y)
-  | .str x, .str y => pure (x == y)
-  | .list _, .list _ => throw Sig.panic
-  | .map _, .map _ => throw Sig.panic
-  | .func x, .func y => pure (x == y)
-  | .builtin x, .builtin y => pure (x == y)
-  | _, _ => pure false
+def hexDigitC (n : Nat) : Char := if n < 10 then Char.ofNat (48 + n) else Char.ofNat (87 + n)
+def hexOf (bs : List Nat) : String := String.ofList (bs.flatMap fun b => [hexDigitC ((b / 16) % 16), hexDigitC (b % 16)])
+
+/-- byte strings as Lean strings (names, keys of the scope storage, error types); injective -/
+def bytesToString (b : List Nat) : String :=
+  match String.fromUTF8? (ByteArray.mk (b.map (·.toUInt8)).toArray) with
+  | some s => s
+  | none => "\x00" ++ hexOf b
+
+def bytesLt : List Nat → List Nat → Bool
+  | [], [] => false
+  | [], _ :: _ => true
+  | _ :: _, [] => false
+  | a :: as, b :: bs => if a < b then true else if b < a then false else bytesLt as bs
+
+/-- insertion sort (stable) – the order of map keys in a `for [k, v] in map` loop -/
+def insertBy {α : Type} (lt : α → α → Bool) (x : α) : List α → List α
+  | [] => [x]
+  | y :: ys => if lt x y then x :: y :: ys else y :: insertBy lt x ys
+def sortBy {α : Type} (lt : α → α → Bool) : List α → List α
+  | [] => []
+  | x :: xs => insertBy lt x (sortBy lt xs)
+
+/-- fmt.Sprint of a number: integral values below 1e21 only -/
+def sprintNum (f : Float) : Except Sig (List Nat) :=
+  if isIntegral f then
+    let neg := f < 0 || (f == 0 && (1 / f) < 0)
+    .ok ((if neg then [45] else []) ++ natToDec f.abs.toUInt64.toNat)
+  else .error (Sig.unsupported "float formatting")
+
+def joinBytes (sep : List Nat) : List (List Nat) → List Nat
+  | [] => []
+  | [x] => x
+  | x :: xs => x ++ sep ++ joinBytes sep xs
+
+/-- fmt.Sprint (`%v`) for the values this model supports; lists as `[a b]`, maps as `map[k:v …]` with
+    the keys in fmt's order (all keys strings or all keys numbers; mixed key types are ordered by type
+    addresses in Go) -/
+def sprintD (lists : Array (List Val)) (maps : Array (List (Val × Val))) : Nat → Val → Except Sig (List Nat)
+  | 0, _ => .error Sig.fuel
+  | d+1, v =>
+    match v with
+    | .null => .ok (str "<nil>")
+    | .bool true => .ok (str "true") | .bool false => .ok (str "false")
+    | .str s => .ok s
+    | .num f => sprintNum f
+    | .opaque w => .error (Sig.unsupported s!"opaque value {w}")
+    | .list r l => do
+      let parts ← ((lists.getD r []).take l).mapM (sprintD lists maps d)
+      pure ([91] ++ joinBytes [32] parts ++ [93])
+    | .map r => do
+      let kvs := maps.getD r []
+      let allStr := kvs.all fun p => match p.1 with | .str _ => true | _ => false
+      let allNum := kvs.all fun p => match p.1 with | .num f => !f.isNaN | _ => false
+      if !(allStr || allNum) then throw (Sig.unsupported "formatting a map with mixed key types")
+      let lt (a b : Val × Val) : Bool := match a.1, b.1 with
+        | .str x, .str y => bytesLt x y
+        | .num x, .num y => x < y
+        | _, _ => false
+      let sorted := sortBy lt kvs
+      let parts ← sorted.mapM fun (k, x) => do
+        pure ((← sprintD lists maps d k) ++ [58] ++ (← sprintD lists maps d x))
+      pure (str "map[" ++ joinBytes [32] parts ++ [93])
+    | _ => .error (Sig.unsupported "function formatting")
+
+def sprint (v : Val) : M (List Nat) := do
+  let st ← get
+  match sprintD st.lists st.maps 60 v with
+  | .ok s => pure s
+  | .error e => throw e
 
 def hashable : Val → Bool
-  | .list _ => false | .map _ => false | _ => true
+  | .list _ _ => false | .map _ => false | _ => true
 
-def newList (vs : List Val) : M Val := do
-  let s ← get; set { s with lists := s.lists.push vs }; pure (.list s.lists.size)
+/-! Go slices: growth of the capacity as in runtime.growslice for 16-byte elements (go1.23, 64 bit) -/
+def sizeClasses : List Nat :=
+  [8, 16, 24, 32, 48, 64, 80, 96, 112, 128, 144, 160, 176, 192, 208, 224, 240, 256, 288, 320, 352, 384, 416,
+   448, 480, 512, 576, 640, 704, 768, 896, 1024, 1152, 1280, 1408, 1536, 1792, 2048, 2304, 2688, 3072, 3200,
+   3456, 4096, 4864, 5376, 6144, 6528, 6784, 6912, 8192, 9472, 9728, 10240, 10880, 12288, 13568, 14336,
+   16384, 18432, 19072, 20480, 21760, 24576, 27264, 28672, 32768]
+def roundupsize (size : Nat) : Option Nat :=
+  if size ≤ 512 then sizeClasses.find? (· ≥ size)
+  else if size + 8 ≤ 32768 then (sizeClasses.find? (· ≥ size + 8)).map (· - 8)
+  else some ((size + 8191) / 8192 * 8192)          -- large object: whole pages
+def nextCapLoop : Nat → Nat → Nat → Nat
+  | 0, c, _ => c
+  | k+1, c, newLen => let c' := c + (c + 768) / 4; if c' ≥ newLen then c' else nextCapLoop k c' newLen
+def growCap (oldCap newLen : Nat) : Option Nat :=
+  let nc := if newLen > 2 * oldCap then newLen else if oldCap < 256 then 2 * oldCap else nextCapLoop 64 oldCap newLen
+  (roundupsize (nc * 16)).map (· / 16)
+
+def getBacking (r : Nat) : M (List Val) := do return (← get).lists.getD r []
+def setBacking (r : Nat) (b : List Val) : M Unit := modify fun s => { s with lists := s.lists.setIfInBounds r b }
+def newBacking (b : List Val) : M Nat := do
+  let s ← get; set { s with lists := s.lists.push b }; pure s.lists.size
+/-- the elements of a slice -/
+def getList (r len : Nat) : M (List Val) := do return (← getBacking r).take len
 def newMap (kvs : List (Val × Val)) : M Val := do
   let s ← get; set { s with maps := s.maps.push kvs }; pure (.map s.maps.size)
-def getList (r : Nat) : M (List Val) := do return (← get).lists.getD r []
 def getMap (r : Nat) : M (List (Val × Val)) := do return (← get).maps.getD r []
+def setMap (r : Nat) (kvs : List (Val × Val)) : M Unit := modify fun s => { s with maps := s.maps.setIfInBounds r kvs }
+
+/-- `append(slice, vs...)` -/
+def appendVals (r len : Nat) (vs : List Val) : M Val := do
+  if vs.isEmpty then return .list r len
+  let b ← getBacking r
+  let newLen := len + vs.length
+  if newLen ≤ b.length then
+    setBacking r (b.take len ++ vs ++ b.drop newLen)
+    pure (.list r newLen)
+  else
+    match growCap b.length newLen with
+    | none => throw (Sig.unsupported "slice larger than the modelled size classes")
+    | some c =>
+      let r' ← newBacking (b.take len ++ vs ++ List.replicate (c - newLen) Val.null)
+      pure (.list r' newLen)
+
+/-- a list built by appending one element at a time to a nil slice (list literal) -/
+def newListLit (vs : List Val) : M Val := do
+  let mut cur := Val.list 0 0
+  for v in vs do
+    match cur with
+    | .list r l => cur ← appendVals r l [v]
+    | _ => pure ()
+  pure cur
+/-- `[]interface{}{a, b, …}` (capacity = length, never nil) -/
+def newListExact (vs : List Val) : M Val := do
+  let r ← newBacking vs; pure (.list r vs.length)
 
 def keyEq (a b : Val) : Bool :=
   match a, b with
@@ -109,6 +381,50 @@ def keyEq (a b : Val) : Bool :=
 def mapLookup (kvs : List (Val × Val)) (k : Val) : Option Val := (kvs.find? fun p => keyEq p.1 k).map (·.2)
 def mapStore (kvs : List (Val × Val)) (k v : Val) : List (Val × Val) :=
   if (mapLookup kvs k).isSome then kvs.map fun p => if keyEq p.1 k then (k, v) else p else kvs ++ [(k, v)]
+
+/-- valuesEqual of rt_boolean.go: Go `==` on comparable values, reflect.DeepEqual on two lists / two maps -/
+def deepEq : Nat → Val → Val → M Bool
+  | 0, _, _ => throw Sig.fuel
+  | f+1, a, b =>
+    match a, b with
+    | .null, .null => pure true
+    | .bool x, .bool y => pure (x == y)
+    | .num x, .num y => pure (x == y)
+    | .str x, .str y => pure (x == y)
+    | .func x, .func y => if x == y then pure true else throw (Sig.unsupported "deep comparison of two functions")
+    | .opaque w, _ => throw (Sig.unsupported s!"opaque value {w}")
+    | _, .opaque w => throw (Sig.unsupported s!"opaque value {w}")
+    | .list r1 l1, .list r2 l2 => do
+      if (r1 == 0) != (r2 == 0) then return false          -- nil vs non-nil slice
+      if l1 != l2 then return false
+      if r1 == r2 then return true
+      let xs ← getList r1 l1
+      let ys ← getList r2 l2
+      let mut eq := true
+      for (x, y) in xs.zip ys do
+        if eq then
+          if !(← deepEq f x y) then eq := false
+      pure eq
+    | .map r1, .map r2 => do
+      let m1 ← getMap r1
+      let m2 ← getMap r2
+      if m1.length != m2.length then return false
+      if r1 == r2 then return true
+      let mut eq := true
+      for (k, x) in m1 do
+        if eq then
+          match mapLookup m2 k with
+          | none => eq := false
+          | some y => if !(← deepEq f x y) then eq := false
+      pure eq
+    | _, _ => pure false
+
+/-- top level of valuesEqual: functions compare by identity -/
+def goEq (a b : Val) : M Bool :=
+  match a, b with
+  | .func x, .func y => pure (x == y)
+  | .builtin x, .builtin y => pure (x == y)
+  | _, _ => deepEq 200 a b
 
 /-! ### scopes -/
 def newScope (name : String) (parent : Option Nat := none) : M Nat := do
@@ -143,8 +459,6 @@ def splitDots (s : List Nat) : List (List Nat) :=
     | c :: cs, acc => if c = 46 then acc.reverse :: go cs [] else go cs (c :: acc)
   go s []
 
-def bytesToString (b : List Nat) : String := String.fromUTF8! (ByteArray.mk (b.map (·.toUInt8)).toArray)
-
 /-- strconv.Atoi on a byte string (decimal, optional sign) -/
 def atoi (s : List Nat) : Option Int :=
   let (neg, ds) := match s with
@@ -154,7 +468,23 @@ def atoi (s : List Nat) : Option Int :=
     let n : Nat := ds.foldl (fun a c => a * 10 + (c - 48)) 0
     some (if neg then -(n : Int) else (n : Int))
 
-def plain (msg : String) : Sig := Sig.plainErr msg
+/-- map lookup of a path segment: the number key first, then the string key -/
+def mapFieldLookup (kvs : List (Val × Val)) (fld : List Nat) : Option Val :=
+  let byNum := match atoi fld with
+    | some i => mapLookup kvs (.num (Float.ofInt i))
+    | none => none
+  match byNum with
+  | some v => some v
+  | none => mapLookup kvs (.str fld)
+
+/-- list index of a path segment (negative counts from the end); the Go errors are plain errors -/
+def listIndex (fld : List Nat) (len : Nat) : M Nat :=
+  match atoi fld with
+  | some i =>
+    let i := if i < 0 then i + len else i
+    if 0 ≤ i && i < (len : Int) then pure i.toNat
+    else throw (plain "Out of bounds access to list")
+  | none => throw (plain "List needs a number index")
 
 /-- getValue.containerAccess -/
 def containerGet : Nat → List (List Nat) → Val → M (Val × Bool)
@@ -162,40 +492,29 @@ def containerGet : Nat → List (List Nat) → Val → M (Val × Bool)
   | _, [], c => pure (c, true)
   | f+1, fld :: rest, c => do
     let ret ← (match c with
-      | .map r => do
-        let kvs ← getMap r
-        let byNum := match atoi fld with
-          | some i => mapLookup kvs (.num (Float.ofInt i))
-          | none => none
-        match byNum with
-        | some v => pure v
-        | none => pure ((mapLookup kvs (.str fld)).getD Val.null)
-      | .list r => do
-        let vs ← getList r
-        match atoi fld with
-        | some i =>
-          let i := if i < 0 then i + vs.length else i
-          if i < (vs.length : Int) then
-            if i < 0 then throw Sig.panic else pure (vs.getD i.toNat Val.null)
-          else throw (plain "Out of bounds access to list")
-        | none => throw (plain "List needs a number index")
+      | .map r => do pure ((mapFieldLookup (← getMap r) fld).getD Val.null)
+      | .list r l => do
+        let i ← listIndex fld l
+        pure ((← getBacking r).getD i Val.null)
       | _ => throw (plain "Variable is not a container"))
     if rest.isEmpty then
       pure (ret, match ret with | .null => false | _ => true)
     else containerGet f rest ret
 
+def lookupVar (sc : Nat) (v : String) : M (Option Val) := do
+  match ← scopeFor 10000 sc v with
+  | some s => pure (some (((← getScope s).vars.find? (·.1 == v)).map (·.2) |>.getD Val.null))
+  | none => pure none
+
 def getValue (sc : Nat) (name : List Nat) : M (Val × Bool) := do
-  let flds := splitDots name
-  match flds with
+  match splitDots name with
   | [v] =>
-    match ← scopeFor 10000 sc (bytesToString v) with
-    | some s => pure (((← getScope s).vars.find? (·.1 == bytesToString v)).map (·.2) |>.getD Val.null, true)
+    match ← lookupVar sc (bytesToString v) with
+    | some x => pure (x, true)
     | none => pure (Val.null, false)
   | v :: rest =>
-    match ← scopeFor 10000 sc (bytesToString v) with
-    | some s =>
-      let c := ((← getScope s).vars.find? (·.1 == bytesToString v)).map (·.2) |>.getD Val.null
-      containerGet 10000 rest c
+    match ← lookupVar sc (bytesToString v) with
+    | some c => containerGet 10000 rest c
     | none => pure (Val.null, false)
   | [] => pure (Val.null, false)
 
@@ -204,25 +523,19 @@ def setVar (sc : Nat) (v : String) (x : Val) : M Unit := do
   let vars := if (s.vars.find? (·.1 == v)).isSome then s.vars.map fun p => if p.1 == v then (v, x) else p else s.vars ++ [(v, x)]
   setScope sc { s with vars := vars }
 
-/-- setValue.containerAccess (string keys only for maps) -/
+/-- varsScope.containerAccess (write path): walks all but the last field -/
 def containerWalk : Nat → List (List Nat) → Val → M Val
   | 0, _, _ => throw Sig.fuel
   | _, [], c => pure c
   | f+1, fld :: rest, c => do
     let nxt ← (match c with
       | .map r => do
-        match mapLookup (← getMap r) (.str fld) with
+        match mapFieldLookup (← getMap r) fld with
         | some v => pure v
         | none => throw (plain "Container field does not exist")
-      | .list r => do
-        let vs ← getList r
-        match atoi fld with
-        | some i =>
-          let i := if i < 0 then i + vs.length else i
-          if i < (vs.length : Int) then
-            if i < 0 then throw Sig.panic else pure (vs.getD i.toNat Val.null)
-          else throw (plain "Out of bounds access to list")
-        | none => throw (plain "List needs a number index")
+      | .list r l => do
+        let i ← listIndex fld l
+        pure ((← getBacking r).getD i Val.null)
       | _ => throw (plain "Variable is not a container"))
     -- Go: `if err == nil && len(fields) > 2 { recurse with fields[1:] }` – the last field is handled by the caller
     if rest.length > 1 then containerWalk f rest nxt else pure nxt
@@ -236,26 +549,25 @@ def setValue (sc : Nat) (name : List Nat) (x : Val) : M Unit := do
     | some s => setVar s v x
     | none => setVar sc v x
   | v :: rest =>
-    let (c, ok) ← getValue sc v
-    if !ok then throw (plain "Variable is not a container")
-    let container ← (if flds.length > 2 then containerWalk 10000 rest c else pure c)
-    let last := rest.getLast!
-    match container with
-    | .null => pure ()            -- `container != nil` guard: silently nothing
-    | .map r =>
-      let kvs ← getMap r
-      modify fun s => { s with maps := s.maps.setIfInBounds r (mapStore kvs (.str last) x) }
-    | .list r =>
-      let vs ← getList r
-      match atoi last with
-      | some i =>
-        let i := if i < 0 then i + vs.length else i
-        if i < (vs.length : Int) then
-          if i < 0 then throw Sig.panic
-          else modify fun s => { s with lists := s.lists.setIfInBounds r (vs.set i.toNat x) }
-        else throw (plain "Out of bounds access to list")
-      | none => throw (plain "List needs a number index")
-    | _ => throw (plain "Variable is not a container")
+    -- `container, ok, _ := s.getValue(cFields[0])`
+    match ← lookupVar sc (bytesToString v) with
+    | none => throw (plain "Variable is not a container")
+    | some c =>
+      let container ← (if flds.length > 2 then containerWalk 10000 rest c else pure c)
+      let last := rest.getLast!
+      match container with
+      | .null => pure ()            -- `container != nil` guard: silently nothing
+      | .map r =>
+        let kvs ← getMap r
+        -- an existing number key is preferred, otherwise the string key
+        let key : Val := match atoi last with
+          | some i => if (mapLookup kvs (.num (Float.ofInt i))).isSome then .num (Float.ofInt i) else .str last
+          | none => .str last
+        setMap r (mapStore kvs key x)
+      | .list r l =>
+        let i ← listIndex last l
+        setBacking r ((← getBacking r).set i x)
+      | _ => throw (plain "Variable is not a container")
   | [] => pure ()
 
 def setLocalValue (sc : Nat) (name : List Nat) (x : Val) : M Unit := do
@@ -271,7 +583,7 @@ def truthy : Val → Bool
   | .null => false | .bool false => false | _ => true      -- the number 0 is truthy (compared with an int 0)
 
 def numberOf (t : Tok) : M Float :=
-  -- strconv.ParseFloat of the token text (validated by the lexer model's grammar)
+  -- strconv.ParseFloat of the token text (validated by the lexer's grammar)
   let ds := t.val
   let isD (c : Nat) : Bool := 48 ≤ c && c ≤ 57
   let ip := ds.takeWhile isD
@@ -286,15 +598,22 @@ def numberOf (t : Tok) : M Float :=
   if ex ≥ fp.length then pure (Float.ofScientific m false (ex - fp.length))
   else pure (Float.ofScientific m true (fp.length - ex))
 
-def isRtErr : Sig → Bool
-  | .err _ _ => true | .ret _ _ => true | _ => false
-
-/-- executeFunction's wrapping of non-runtime errors -/
+/-- executeFunction's wrapping of non-runtime errors (the three iteration texts keep their meaning) -/
 def wrapCallErr (node : Node) (s : Sig) : Sig :=
   match s with
-  | .plainErr _ => rtErr "Runtime error" node
-  | .iter a b c d fst => .iter a b c d fst
+  | .plainErr m => if m == tBreak || m == tContinue || m == tIsIter then rtErr m node else rtErr "Runtime error" node
   | s => s
+
+/-- run `m` with a fresh instance-state map -/
+def withFreshIs {α : Type} (m : M α) : M α := do
+  let s ← get
+  let old := s.curIs
+  set { s with isStore := s.isStore.push [], curIs := s.isStore.size }
+  let r ← attemptE m
+  modify fun s => { s with curIs := old }
+  match r with
+  | .ok v => pure v
+  | .error e => throw e
 
 def knownNodes : List String :=
   ["string","number","identifier","statements","funccall","compaccess","list","map","params","guard",
@@ -344,6 +663,100 @@ partial def validate (n : Node) : Except Sig Unit := do
   | "sink" | "import" | "mutex" | "like" => throw (Sig.unsupported s!"node {n.name}")
   | _ => pure ()
 
+/-! ### canonical text of a value (marker log, outcome) -/
+def hexNat16 (n : Nat) : String :=
+  String.ofList ((List.range 16).reverse.map fun i => hexDigitC ((n / 16 ^ i) % 16))
+
+def canonVal (st : St) : Nat → Val → String
+  | 0, _ => "DEEP"
+  | _, .null => "N" | _, .bool b => if b then "T" else "F"
+  | _, .num f => if f.isNaN then "nNaN" else "n" ++ hexNat16 f.toBits.toNat
+  | _, .str s => "s" ++ hexOf s
+  | d+1, .list r l => "[" ++ " ".intercalate (((st.lists.getD r []).take l).map (canonVal st d)) ++ "]"
+  | d+1, .map r =>
+    let items := (st.maps.getD r []).map fun (k, v) => canonVal st d k ++ ":" ++ canonVal st d v
+    "{" ++ " ".intercalate (items.toArray.qsort (· < ·)).toList ++ "}"
+  | _, .func _ => "func" | _, .builtin _ => "func"
+  | _, .opaque w => "?" ++ w
+
+def canonDepth : Nat := 7
+
+/-- json-ish text used by log/error/debug for non-string arguments (stringutil.ConvertToPrettyString) -/
+def prettyArg (v : Val) : M (List Nat) :=
+  match v with
+  | .str s => pure s
+  | .null => pure (str "null")
+  | .bool true => pure (str "true") | .bool false => pure (str "false")
+  | .num f => if isIntegral f && f.abs < 1e15 then sprint v else throw (Sig.unsupported "log of a non-integral number")
+  | _ => throw (Sig.unsupported "log of a container")
+
+/-- `%#v` for the values this model supports (builtin `type`) -/
+def goSyntax : Nat → Val → M (List Nat)
+  | 0, _ => throw Sig.fuel
+  | f+1, v =>
+    match v with
+    | .null => pure (str "interface {}(nil)")
+    | .bool true => pure (str "true") | .bool false => pure (str "false")
+    | .num x => if isIntegral x && x.abs < 1e15 then sprint v else throw (Sig.unsupported "type of a non-integral number")
+    | .str s =>
+      if s.all fun c => 32 ≤ c && c < 127 && c != 34 && c != 92 then pure ([34] ++ s ++ [34])
+      else throw (Sig.unsupported "type of a string that needs quoting")
+    | .list r l => do
+      if r == 0 then return str "[]interface {}(nil)"
+      let xs ← getList r l
+      let parts ← xs.mapM fun x => do
+        match x with
+        | .null => pure (str "interface {}(nil)")
+        | _ => goSyntax f x
+      pure (str "[]interface {}{" ++ (str ", ").intercalate parts ++ [125])
+    | _ => throw (Sig.unsupported "type of a map or function")
+
+def segIdx (pat : List Nat) (l : List Nat) : Option Nat :=
+  (List.range (l.length + 1)).find? fun i => pat.isPrefixOf (l.drop i)
+
+/-- int(float64) for the values where Go's conversion is defined -/
+def goInt (x : Float) : M Int :=
+  if x.isNaN || x.abs ≥ 9e18 then throw (Sig.unsupported "int conversion out of range")
+  else pure x.toInt64.toInt
+
+/-- iterator state of a `for … in` loop -/
+inductive IterSt where
+  | reeval                                   -- iterator function (range): evaluate the expression again
+  | list (r l i : Nat)                       -- slice header captured at loop start, next index
+  | map (r : Nat) (keys : List Val)          -- remaining keys (sorted at loop start), values read live
+  | single (v : Val) (done : Bool)
+
+/-- setting the loop variable(s) for one step; every failure is a "Runtime error" at the loop node -/
+def bindLoopVars (ls : Nat) (n : Node) (vars : List (List Nat)) (item : Val) : M Unit := do
+  let wrap (m : M Unit) : M Unit := do
+    match ← attemptE m with
+    | .ok _ => pure ()
+    | .error e => if e.isFatal then throw e else throw (rtErr "Runtime error" n)
+  match vars with
+  | [v] => wrap (setValue ls v item)
+  | vs =>
+    match item with
+    | .list r l =>
+      let xs ← getList r l
+      if xs.length != vs.length then throw (rtErr "Runtime error" n)
+      for (v, x) in vs.zip xs do wrap (setValue ls v x)
+    | _ => throw (rtErr "Runtime error" n)
+
+/-- the error object handed to `except … as e` / `except e`: only `type`, `detail` and `data` of a raised
+    error are modelled, the other entries hold values this model does not know -/
+def errObject : Sig → M Val
+  | .err re wd =>
+    newMap ([(.str (str "type"), .str (str re.type)), (.str (str "error"), .opaque "error text"),
+             (.str (str "detail"), match wd with | some (d, _) => .str d | none => .opaque "detail text"),
+             (.str (str "pos"), .opaque "int"), (.str (str "line"), .opaque "int"),
+             (.str (str "source"), .opaque "source name"), (.str (str "trace"), .opaque "trace")] ++
+            (match wd with | some (_, d) => [(.str (str "data"), d)] | none => []))
+  | .iter re _ =>
+    newMap [(.str (str "type"), .str (str re.type)), (.str (str "error"), .opaque "error text"),
+            (.str (str "detail"), .opaque "detail text"),
+            (.str (str "pos"), .opaque "int"), (.str (str "line"), .opaque "int"),
+            (.str (str "source"), .opaque "source name"), (.str (str "trace"), .opaque "trace")]
+  | _ => newMap [(.str (str "type"), .str (str "UnexpectedError")), (.str (str "error"), .opaque "error text")]
 
 mutual
 def eval : Nat → Nat → Node → M Val          -- fuel, scope, node
@@ -361,14 +774,15 @@ def eval : Nat → Nat → Node → M Val          -- fuel, scope, node
     | "list" =>
       let vs ← n.children.mapM fun c => do
         match c with | some c => eval f sc c | none => throw Sig.panic
-      newList vs
+      newListLit vs
     | "map" =>
       let mut kvs : List (Val × Val) := []
       for c in n.children do
         let kvp ← (match c with | some c => pure c | none => throw Sig.panic)
+        if kvp.name != "kvp" || kvp.children.length != 2 then throw (rtErr "Invalid construct" kvp)
         let k ← eval f sc (← child kvp 0)
+        if !(hashable k) then throw (rtErr "Invalid construct" (← child kvp 0))
         let v ← eval f sc (← child kvp 1)
-        if !(hashable k) then throw Sig.panic
         kvs := mapStore kvs k v
       newMap kvs
     | "plus" => if n.children.length == 1 then numVal f sc n id else numOp f sc n (fun a b => .num (a + b))
@@ -377,31 +791,33 @@ def eval : Nat → Nat → Node → M Val          -- fuel, scope, node
     | "div" => numOp f sc n (fun a b => .num (a / b))
     | "divint" => numOp f sc n (fun a b => .num (a / b).floor)
     | "modint" =>
-      -- float64(int64(a) % int64(b)); out-of-range conversions are outside the prototype
+      -- float64(int64(a) % int64(b)); out-of-range conversions are outside the model
+      if n.children.length != 2 then throw Sig.panic
       let a ← eval f sc (← child n 0)
       let b ← eval f sc (← child n 1)
       match a, b with
       | .num x, .num y =>
-        if x.abs ≥ 9e18 || y.abs ≥ 9e18 || x.isNaN || y.isNaN then throw (Sig.unsupported "int64 conversion")
-        else
-          let xi := x.toInt64.toInt
-          let yi := y.toInt64.toInt
-          if yi = 0 then throw Sig.panic else pure (.num (Float.ofInt (xi.tmod yi)))
+        let xi ← goInt x
+        let yi ← goInt y
+        if yi = 0 then throw (rtErr "Runtime error" n) else pure (.num (Float.ofInt (xi.tmod yi)))
       | .num _, _ => throw (rtErr "Operand is not a number" (← child n 1))
       | _, _ => throw (rtErr "Operand is not a number" (← child n 0))
-    | ">=" => cmpOp f sc n (fun a b => a ≥ b) (fun a b => decide (a ≥ b))
-    | ">" => cmpOp f sc n (fun a b => a > b) (fun a b => decide (a > b))
-    | "<=" => cmpOp f sc n (fun a b => a ≤ b) (fun a b => decide (a ≤ b))
-    | "<" => cmpOp f sc n (fun a b => a < b) (fun a b => decide (a < b))
+    | ">=" => cmpOp f sc n (fun a b => a ≥ b) (fun a b => !bytesLt a b)
+    | ">" => cmpOp f sc n (fun a b => a > b) (fun a b => bytesLt b a)
+    | "<=" => cmpOp f sc n (fun a b => a ≤ b) (fun a b => !bytesLt b a)
+    | "<" => cmpOp f sc n (fun a b => a < b) (fun a b => bytesLt a b)
     | "==" => do
+      if n.children.length != 2 then throw Sig.panic
       let a ← eval f sc (← child n 0); let b ← eval f sc (← child n 1)
       pure (.bool (← goEq a b))
     | "!=" => do
+      if n.children.length != 2 then throw Sig.panic
       let a ← eval f sc (← child n 0); let b ← eval f sc (← child n 1)
       pure (.bool !(← goEq a b))
     | "and" => boolOp f sc n (fun a b => a && b)
     | "or" => boolOp f sc n (fun a b => a || b)
     | "not" =>
+      if n.children.length != 1 then throw Sig.panic
       let v ← eval f sc (← child n 0)
       match v with
       | .bool b => pure (.bool !b)
@@ -435,16 +851,16 @@ def eval : Nat → Nat → Node → M Val          -- fuel, scope, node
       eval f sc lv
     | "if" =>
       let bs ← newChild sc (← scopeName n)
-      evalIf f bs n.children
+      ifChain (← ifBranches f bs n.children)
     | "guard" =>
       let v ← eval f sc (← child n 0)
       pure (.bool (truthy v))
     | "loop" => evalLoop f sc n
-    | "break" => throw (rtErr "End of iteration was reached" n)
-    | "continue" => throw (rtErr "End of iteration step - Continue iteration" n)
+    | "break" => throw (rtErr tBreak n)
+    | "continue" => throw (rtErr tContinue n)
     | "return" =>
       let v ← if n.children.isEmpty then pure Val.null else eval f sc (← child n 0)
-      match rtErr "*** return ***" n with
+      match rtErr tReturn n with
       | .err e _ => throw (Sig.ret e v)
       | s => throw s
     | "function" =>
@@ -454,51 +870,54 @@ def eval : Nat → Nat → Node → M Val          -- fuel, scope, node
       let s ← get
       set { s with funcs := s.funcs.push { name := name, decl := n, declScope := sc } }
       let fv := Val.func s.funcs.size
-      if name != "" then setValue sc c0tok fv
+      if name != "" then
+        -- `vs.SetValue(name, fc)`: the error is dropped
+        match ← attemptE (setValue sc c0tok fv) with
+        | .error e => if e.isFatal then throw e
+        | .ok _ => pure ()
       pure fv
     | "try" => evalTry f sc n
     | "kvp" | "preset" | "params" | "funccall" | "compaccess" | "as" | "except" | "otherwise" | "finally" => pure Val.null
     | _ => throw (Sig.unsupported s!"node {n.name}")
 
-/-- stringValueRuntime.Eval: loop { GetInfix; parse+eval the code in a child scope; replace once } -/
+/-- the (guard, block) pairs of an `if` node as computations -/
+def ifBranches : Nat → Nat → List (Option Node) → M (List (M Val × M Val))
+  | 0, _, _ => throw Sig.fuel
+  | f+1, sc, some g :: some body :: rest => do
+    pure ((eval f sc g, eval f sc body) :: (← ifBranches f sc rest))
+  | _, _, [] => pure []
+  | _, _, _ => throw Sig.panic
+
+/-- stringValueRuntime.Eval: one pass over the literal; every `{{code}}` (first `}}` after the `{{`)
+    is parsed, validated and evaluated in a child scope; substituted text is not scanned again -/
 def interpolate : Nat → Nat → Node → List Nat → M (List Nat)
   | 0, _, _, _ => throw Sig.fuel
-  | f+1, sc, n, ret => do
-    -- GetInfix(ret, "{{", "}}")
-    let idx (pat : List Nat) (l : List Nat) : Option Nat :=
-      (List.range (l.length + 1)).find? fun i => pat.isPrefixOf (l.drop i)
-    match idx [123, 123] ret with
-    | none => pure ret
+  | f+1, sc, n, rest => do
+    match segIdx [123, 123] rest with
+    | none => pure rest
     | some s0 =>
-      let s := s0 + 2
-      match idx [125, 125] ret with
-      | none => pure ret
+      let after := rest.drop (s0 + 2)
+      match segIdx [125, 125] after with
+      | none => pure rest
       | some e =>
-        if e < s then throw Sig.panic                     -- str[s:e] with e < s
-        let code := (ret.drop s).take (e - s)
-        if code == ret then pure ret
-        else
-          let repl ← (match Ecal.Parse.parse code with
-            | (some ast, none) =>
-              match validate ast with
-              | .ok _ => do
-                let cs ← newChild sc (← scopeName n)
-                match ← attemptE (eval f cs ast) with
-                | .ok v => sprint v
-                | .error Sig.panic => throw Sig.panic
-                | .error Sig.fuel => throw Sig.fuel
-                | .error (Sig.unsupported w) => throw (Sig.unsupported w)
-                | .error _ => throw (Sig.unsupported "error text inside interpolation")
-              | .error _ => throw (Sig.unsupported "error text inside interpolation")
-            | (_, some Ecal.Parse.Err.panic) => throw Sig.panic
-            | _ => throw (Sig.unsupported "error text inside interpolation"))
-          -- strings.Replace(ret, "{{"+code+"}}", repl, 1): the first occurrence is the one at s0
-          let ret' := ret.take s0 ++ repl ++ ret.drop (e + 2)
-          interpolate f sc n ret'
+        let code := after.take e
+        let repl ← (match (← get).interp.find? (·.1 == code) with
+          | none => throw (Sig.unsupported "embedded expression missing from the payload table")
+          | some (_, .text r) => pure r
+          | some (_, .ast ast) => do
+            let cs ← newChild sc (← scopeName n)
+            match ← attemptE (withFreshIs (eval f cs ast)) with
+            | .ok v => sprint v
+            | .error e =>
+              if e.isFatal then throw e
+              else throw (Sig.unsupported "error text inside interpolation"))
+        let tail ← interpolate f sc n (after.drop (e + 2))
+        pure (rest.take s0 ++ repl ++ tail)
 
 def numVal : Nat → Nat → Node → (Float → Float) → M Val
   | 0, _, _, _ => throw Sig.fuel
   | f+1, sc, n, op => do
+    if n.children.length != 1 then throw Sig.panic
     let v ← eval f sc (← child n 0)
     match v with
     | .num x => pure (.num (op x))
@@ -516,25 +935,23 @@ def numOp : Nat → Nat → Node → (Float → Float → Val) → M Val
     | _, _ => throw (rtErr "Operand is not a number" (← child n 0))
 
 /-- numOp, and on ANY error strOp (which evaluates the operands again) -/
-def cmpOp : Nat → Nat → Node → (Float → Float → Bool) → (String → String → Bool) → M Val
+def cmpOp : Nat → Nat → Node → (Float → Float → Bool) → (List Nat → List Nat → Bool) → M Val
   | 0, _, _, _, _ => throw Sig.fuel
   | f+1, sc, n, nop, sop => do
     match ← attemptE (numOp f sc n (fun a b => .bool (nop a b))) with
     | .ok v => pure v
-    | .error Sig.panic => throw Sig.panic
-    | .error Sig.fuel => throw Sig.fuel
-    | .error (Sig.unsupported w) => throw (Sig.unsupported w)
-    | .error _ =>
+    | .error e =>
+      if e.isFatal then throw e
       let a ← eval f sc (← child n 0)
       let b ← eval f sc (← child n 1)
       let sa ← sprint a
       let sb ← sprint b
-      -- Go compares the byte strings; String comparison on valid UTF-8 agrees with byte order
-      pure (.bool (sop (bytesToString sa) (bytesToString sb)))
+      pure (.bool (sop sa sb))
 
 def strOp : Nat → Nat → Node → (List Nat → List Nat → Bool) → M Val
   | 0, _, _, _ => throw Sig.fuel
   | f+1, sc, n, op => do
+    if n.children.length != 2 then throw Sig.panic
     let a ← eval f sc (← child n 0)
     let b ← eval f sc (← child n 1)
     pure (.bool (op (← sprint a) (← sprint b)))
@@ -542,6 +959,7 @@ def strOp : Nat → Nat → Node → (List Nat → List Nat → Bool) → M Val
 def boolOp : Nat → Nat → Node → (Bool → Bool → Bool) → M Val
   | 0, _, _, _ => throw Sig.fuel
   | f+1, sc, n, op => do
+    if n.children.length != 2 then throw Sig.panic
     let a ← eval f sc (← child n 0)
     let b ← eval f sc (← child n 1)
     match a, b with
@@ -552,26 +970,18 @@ def boolOp : Nat → Nat → Node → (Bool → Bool → Bool) → M Val
 def inOp : Nat → Nat → Node → M Val
   | 0, _, _ => throw Sig.fuel
   | f+1, sc, n => do
+    if n.children.length != 2 then throw Sig.panic
     let a ← eval f sc (← child n 0)
     let b ← eval f sc (← child n 1)
     match b with
-    | .list r =>
-      let vs ← getList r
+    | .list r l =>
+      let vs ← getList r l
       let mut found := false
       for v in vs do
         if !found then
           if ← goEq a v then found := true
       pure (.bool found)
     | _ => throw (rtErr "Operand is not a list" (← child n 0))
-
-def evalIf : Nat → Nat → List (Option Node) → M Val
-  | 0, _, _ => throw Sig.fuel
-  | f+1, sc, some g :: some body :: rest => do
-    match ← eval f sc g with
-    | .bool true => eval f sc body
-    | _ => evalIf f sc rest
-  | _, _, [] => pure Val.null
-  | _, _, _ => throw Sig.panic
 
 def evalAssign : Nat → Nat → Node → M Val
   | 0, _, _ => throw Sig.fuel
@@ -588,18 +998,19 @@ def evalAssign : Nat → Nat → Node → M Val
       else throw (rtErr "Cannot access variable" n))
     let _ ← eval f sc lhs0
     let v ← eval f sc (← child n 1)
-    match targets with
-    | [t] => identSet f sc t v
-    | ts =>
+    if lhs.name == "identifier" then
+      match targets with
+      | [t] => identSet f sc t v
+      | _ => pure ()
+    else
       match v with
-      | .list r =>
-        let vs ← getList r
-        if vs.length != ts.length then throw (rtErr "Invalid state" n)
-        for (t, x) in ts.zip vs do
+      | .list r l =>
+        let vs ← getList r l
+        if vs.length != targets.length then throw (rtErr "Invalid state" n)
+        for (t, x) in targets.zip vs do
           match ← attemptE (identSet f sc t x) with
           | .ok _ => pure ()
-          | .error (Sig.plainErr _) => throw (rtErr "Cannot access variable" n)
-          | .error e => throw e
+          | .error e => if e.isFatal then throw e else throw (rtErr "Cannot access variable" n)
       | _ => throw (rtErr "Invalid state" n)
     pure Val.null
 
@@ -610,11 +1021,13 @@ def identSet : Nat → Nat → Node → Val → M Unit
     let t ← tokOf n
     if n.children.isEmpty then setValue sc t.val v
     else
-      let (_, path) ← accessString f sc n t.val
-      setValue sc path v
+      let (fn, path) ← accessString f sc n t.val
+      -- a call inside the path is the ErrInvalidConstruct error of buildAccessString
+      match fn with
+      | some cn => throw (rtErr "Invalid construct" cn)
+      | none => setValue sc path v
 
-/-- buildAccessString: (node where a call was found, path, call found?) ; a call inside the path
-    is reported by the Bool -/
+/-- buildAccessString: (node where a call was found, path) -/
 def accessString : Nat → Nat → Node → List Nat → M (Option Node × List Nat)
   | 0, _, _, _ => throw Sig.fuel
   | f+1, sc, n, pre => do
@@ -651,9 +1064,10 @@ def evalIdent : Nat → Nat → Node → M Val
       pure (← getValue sc t.val).1
     else
       let (callNode, path) ← accessString f sc n t.val
+      if (splitDots path).head? == some (str "math") then throw (Sig.unsupported "stdlib package math")
       match callNode with
       | some cn =>
-        -- a.b(args): only without a further chain in this prototype
+        -- a.b(args): only without a further chain in this model
         let after := cn.children.drop 1
         if !after.isEmpty then throw (Sig.unsupported "chain after call")
         let (fv, _) ← getValue sc path
@@ -661,7 +1075,11 @@ def evalIdent : Nat → Nat → Node → M Val
       | none =>
         let (v, _) ← getValue sc path
         let hasCall := n.children.any fun c => match c with | some c => c.name == "funccall" | none => false
-        if hasCall then callFunction f sc n path v else pure v
+        if hasCall then
+          match n.children with
+          | [some _] => callFunction f sc n path v
+          | _ => throw (Sig.unsupported "chain after call")
+        else pure v
 
 /-- resolveFunction + executeFunction for the first funccall child of `node` -/
 def callFunction : Nat → Nat → Node → List Nat → Val → M Val
@@ -677,11 +1095,22 @@ def callFunction : Nat → Nat → Node → List Nat → Val → M Val
       else match fv with
         | .func _ => some fv
         | .builtin _ => some fv
-        | _ => if ["len", "range", "raise", "add", "del", "concat", "type", "new"].contains pathS then some (.builtin pathS) else none
+        | _ =>
+          if pathS == "x.mark" then some (.builtin pathS)
+          else if ["len", "range", "raise", "add", "del", "concat", "type"].contains pathS then some (.builtin pathS)
+          else if ["new", "now", "rand", "timestamp", "dumpenv", "doc", "sleep", "addEvent", "addEventAndWait",
+                   "setCronTrigger", "setPulseTrigger"].contains pathS || (splitDots path).length > 1 then none
+          else none
+    if (["new", "now", "rand", "timestamp", "dumpenv", "doc", "sleep", "addEvent", "addEventAndWait",
+         "setCronTrigger", "setPulseTrigger"].contains pathS) && target.isNone then
+      throw (Sig.unsupported s!"builtin {pathS}")
     match target with
     | none => throw (rtErr "Unknown construct" node)
     | some tv =>
-      let args ← fc.children.mapM fun c => match c with | some c => eval f sc c | none => throw Sig.panic
+      -- every argument is evaluated with a fresh instance-state map
+      let args ← fc.children.mapM fun c => match c with
+        | some c => withFreshIs (eval f sc c)
+        | none => throw Sig.panic
       let r ← attemptE (match tv with
         | .func id => runFunction f sc id args
         | .builtin b => runBuiltin f sc node b args
@@ -692,39 +1121,117 @@ def callFunction : Nat → Nat → Node → List Nat → Val → M Val
 
 def runBuiltin : Nat → Nat → Node → String → List Val → M Val
   | 0, _, _, _, _ => throw Sig.fuel
-  | _+1, _, node, b, args => do
+  | f+1, _, node, b, args => do
+    let numParam (i : Nat) (v : Val) : M Float := match v with
+      | .num x => pure x
+      | .str _ => throw (Sig.unsupported "number parameter given as string")
+      | .opaque w => throw (Sig.unsupported s!"opaque value {w}")
+      | _ => throw (plain s!"Parameter {i} should be a number")
     match b with
     | "log" | "error" | "debug" =>
-      let parts ← args.mapM fun a => match a with
-        | .str s => pure s
-        | _ => throw (Sig.unsupported "log of non-string")
-      modify fun s => { s with log := s.log.push (str b ++ [58] ++ parts.flatten) }
+      let parts ← args.mapM prettyArg
+      let tag := if b == "log" then "l" else if b == "error" then "e" else "d"
+      modify fun s => { s with log := s.log.push (tag ++ hexOf parts.flatten) }
       pure Val.null
+    | "x.mark" =>
+      let st ← get
+      let txt := ",".intercalate (args.map (canonVal st canonDepth))
+      modify fun s => { s with log := s.log.push ("m" ++ txt) }
+      pure (args.headD Val.null)
     | "len" =>
       match args with
-      | .list r :: _ => pure (.num (Float.ofNat (← getList r).length))
+      | .list _ l :: _ => pure (.num (Float.ofNat l))
       | .map r :: _ => pure (.num (Float.ofNat (← getMap r).length))
       | _ => throw (plain "Need a list or a map as first parameter")
+    | "type" =>
+      match args with
+      | [] => throw (plain "Need a value as first parameter")
+      | a :: _ => do
+        match a with
+        | .null => pure (.str (str "<nil>"))
+        | _ => pure (.str (← goSyntax f a))
+    | "del" =>
+      match args with
+      | [.list r l, k] => do
+        let x ← numParam 2 k
+        let i ← goInt x
+        if i < 0 || i ≥ (l : Int) then throw (plain "Out of bounds access to list")
+        let b ← getBacking r
+        let i := i.toNat
+        -- append(argList[:i], argList[i+1:]...) shifts inside the same backing array
+        setBacking r (b.take i ++ (b.take l).drop (i + 1) ++ b.drop (l - 1))
+        pure (.list r (l - 1))
+      | [.map r, k] => do
+        let key ← sprint k
+        let kvs ← getMap r
+        setMap r (kvs.filter fun p => !(keyEq p.1 (.str key)))
+        pure (.map r)
+      | _ => throw (plain "Need a list or a map as first parameter and an index or key as second parameter")
+    | "add" =>
+      match args with
+      | .list r l :: v :: rest => do
+        match rest with
+        | [ix] =>
+          let x ← numParam 3 ix
+          let i ← goInt x
+          if i < 0 || i > (l : Int) then throw (plain "Out of bounds access to list")
+          -- int(index+1) / int(index) of a non-integral index differ from i+1 / i only in the fraction
+          if !(isIntegral x) then throw (Sig.unsupported "add with a non-integral index")
+          let i := i.toNat
+          match ← appendVals r l [.num 0] with
+          | .list r' l' =>
+            let b ← getBacking r'
+            let cur := b.take l'
+            setBacking r' (cur.take i ++ [v] ++ (cur.drop i).take (l' - i - 1) ++ b.drop l')
+            pure (.list r' l')
+          | x => pure x
+        | _ => appendVals r l [v]
+      | _ :: _ :: _ => throw (plain "Parameter 1 should be a list")
+      | _ => throw (plain "Need a list as first parameter and a value as second parameter")
+    | "concat" =>
+      if args.length < 2 then throw (plain "Need at least two lists as parameters")
+      let r0 ← newBacking []
+      let mut cur := Val.list r0 0
+      for a in args do
+        match a, cur with
+        | .list r l, .list cr cl => cur ← appendVals cr cl (← getList r l)
+        | _, _ => throw (plain "Parameter 1 should be a list")
+      pure cur
     | "raise" =>
       let ty ← (match args with
-        | [] => pure "<nil>"
+        | [] => pure "Runtime error"
         | a :: _ => do pure (bytesToString (← sprint a)))
+      let detail ← (match args with
+        | _ :: .null :: _ => pure []
+        | _ :: d :: _ => sprint d
+        | _ => pure [])
       let data := args.getD 2 Val.null
-      match rtErr ty node with
-      | .err e _ => throw (Sig.err e data)
-      | s => throw s
+      match node.tok with
+      | some t => throw (raiseSig ty detail data t.line t.col)
+      | none => throw (raiseSig ty detail data 0 0)
     | "range" =>
-      let num (i : Nat) (v : Val) : M Float := match v with
-        | .num x => pure x
-        | .str _ => throw (Sig.unsupported "range with string argument")
-        | _ => throw (plain s!"Parameter {i} should be a number")
-      match args with
-      | [] => throw (plain "Need at least an end range as first parameter")
-      | [a] => do let t ← num 1 a; throw (Sig.iter 0 t 1 0 true)
-      | a :: b :: rest => do
-        let fr ← num 1 a; let t ← num 2 b
-        let st ← (match rest with | c :: _ => num 3 c | [] => pure 1)
-        throw (Sig.iter fr t st fr true)
+      if args.isEmpty then throw (plain "Need at least an end range as first parameter")
+      let t ← tokOf node
+      let st ← get
+      let states := st.isStore.getD st.curIs []
+      let mkErr : RtErr := ⟨tIsIter, t.line, t.col⟩
+      match states.find? fun r => r.line == t.line && r.col == t.col with
+      | some r =>
+        let states' := states.map fun q => if q.line == t.line && q.col == t.col then { q with cur := floatOps.add q.cur q.step } else q
+        set { st with isStore := st.isStore.setIfInBounds st.curIs states' }
+        if rangeDone floatOps r.fr r.to r.cur then
+          throw (plain tBreak)
+        else throw (Sig.iter mkErr r.cur)
+      | none =>
+        let (fr, to, step) ← (match args with
+          | [a] => do pure ((0 : Float), ← numParam 1 a, (1 : Float))
+          | a :: b :: rest => do
+            let fr ← numParam 1 a; let to ← numParam 2 b
+            let st ← (match rest with | c :: _ => numParam 3 c | [] => pure 1)
+            pure (fr, to, st)
+          | [] => throw Sig.panic)
+        set { st with isStore := st.isStore.setIfInBounds st.curIs (states ++ [({ line := t.line, col := t.col, fr := fr, to := to, step := step, cur := fr } : RangeSt)]) }
+        throw (Sig.iter mkErr fr)
     | _ => throw (Sig.unsupported s!"builtin {b}")
 
 /-- function.Run -/
@@ -751,10 +1258,30 @@ def runFunction : Nat → Nat → Nat → List Val → M Val
     -- SetParentOfScope(fvs, declarationVS)
     let s ← getScope fvs
     setScope fvs { s with parent := some fr.declScope }
-    match ← attemptE (eval f fvs body) with
-    | .ok v => pure v
-    | .error (Sig.ret _ v) => pure v
-    | .error e => throw e
+    callCore (withFreshIs (eval f fvs body))
+
+/-- the iterator of a `for … in` loop -/
+def iterNext : Nat → Nat → Node → Node → IterSt → M (Val × IterSt)
+  | 0, _, _, _, _ => throw Sig.fuel
+  | f+1, ls, loopNode, it, s => do
+    match s with
+    | .reeval =>
+      -- iterator function: the iterable expression is evaluated again for every step
+      match ← attemptE (eval f ls it) with
+      | .ok v => pure (v, .reeval)
+      | .error (Sig.iter _ cur) => pure (.num cur, .reeval)
+      | .error e => throw e
+    | .list r l i =>
+      if i ≥ l then throw (rtErr tBreak loopNode)
+      else pure ((← getBacking r).getD i Val.null, .list r l (i + 1))
+    | .map r keys =>
+      match keys with
+      | [] => throw (rtErr tBreak loopNode)
+      | k :: ks => do
+        let v := (mapLookup (← getMap r) k).getD Val.null
+        pure (← newListExact [k, v], .map r ks)
+    | .single v done =>
+      if done then throw (rtErr tBreak loopNode) else pure (v, .single v true)
 
 def evalLoop : Nat → Nat → Node → M Val
   | 0, _, _ => throw Sig.fuel
@@ -775,179 +1302,107 @@ def evalLoop : Nat → Nat → Node → M Val
         else pure []
       else pure [])
     let ls ← newChild sc (← scopeName n)
+    if n.children.length < 2 then throw Sig.panic
     let body ← child n 1
     if c0.name == "guard" then
-      whileLoop f ls c0 body
+      withFreshIs (guardLoop (eval f ls c0) (eval f ls body) f)
     else if c0.name == "in" then
       let it ← child c0 1
-      match ← attemptE (eval f ls it) with
-      | .error (Sig.iter fr to st _ _) =>
-        rangeLoop f ls n vars body fr to st fr
-      | .error (Sig.err e d) =>
-        -- getIterator hands the error through; the loop body never runs, and the final
-        -- "end of iteration" check swallows a `break` that leaked out of the iterable expression
-        if e.type == "End of iteration was reached" then pure Val.null else throw (Sig.err e d)
-      | .error e => throw e
-      | .ok v =>
-        let items : List Val ← (match v with
-          | .list r => getList r
-          | .map r => do
-            let kvs ← getMap r
-            -- keys sorted by their string form
-            let keyed ← kvs.mapM fun (k, x) => do pure (bytesToString (← sprint k), k, x)
-            let sorted := keyed.toArray.qsort (fun a b => a.1 < b.1) |>.toList
-            sorted.mapM fun (_, k, x) => newList [k, x]
-          | v => pure [v])
-        itemsLoop f ls n vars body items
-    else throw Sig.panic
-
-def whileLoop : Nat → Nat → Node → Node → M Val
-  | 0, _, _, _ => throw Sig.fuel
-  | f+1, ls, g, body => do
-    match ← eval f ls g with
-    | .bool true =>
-      match ← attemptE (eval f ls body) with
-      | .ok _ => whileLoop f ls g body
-      | .error (Sig.err e d) =>
-        if e.type == "End of iteration step - Continue iteration" then whileLoop f ls g body
-        else throw (Sig.err e d)      -- includes `break`: not handled in the guard loop (sic)
-      | .error e => throw e
-    | _ => pure Val.null
-
-def bindLoopVars : Nat → Nat → Node → List (List Nat) → Val → M Unit
-  | 0, _, _, _, _ => throw Sig.fuel
-  | _+1, ls, n, vars, item => do
-    match vars with
-    | [v] => setValue ls v item
-    | vs =>
-      match item with
-      | .list r =>
-        let xs ← getList r
-        if xs.length != vs.length then throw (rtErr "Runtime error" n)
-        for (v, x) in vs.zip xs do setValue ls v x
-      | _ => throw (rtErr "Runtime error" n)
-
-/-- body of one iteration; returns false when the loop has to stop (break) -/
-def loopBody : Nat → Nat → Node → M Bool
-  | 0, _, _ => throw Sig.fuel
-  | f+1, ls, body => do
-    match ← attemptE (eval f ls body) with
-    | .ok _ => pure true
-    | .error (Sig.err e d) =>
-      if e.type == "End of iteration step - Continue iteration" then pure true
-      else if e.type == "End of iteration was reached" then pure false
-      else throw (Sig.err e d)
-    | .error e => throw e
-
-def itemsLoop : Nat → Nat → Node → List (List Nat) → Node → List Val → M Val
-  | 0, _, _, _, _, _ => throw Sig.fuel
-  | _, _, _, _, _, [] => pure Val.null
-  | f+1, ls, n, vars, body, x :: xs => do
-    bindLoopVars f ls n vars x
-    if ← loopBody f ls body then itemsLoop f ls n vars body xs else pure Val.null
-
-def rangeLoop : Nat → Nat → Node → List (List Nat) → Node → Float → Float → Float → Float → M Val
-  | 0, _, _, _, _, _, _, _, _ => throw Sig.fuel
-  | f+1, ls, n, vars, body, fr, to, st, cur => do
-    -- end test of rangeFunc
-    if (fr < to && cur > to) || (fr > to && cur < to) || fr == to then pure Val.null
-    else
-      bindLoopVars f ls n vars (.num cur)
-      if ← loopBody f ls body then rangeLoop f ls n vars body fr to st (cur + st) else pure Val.null
+      withFreshIs (do
+        -- getIterator
+        let start : IterSt ← (do
+          match ← attemptE (eval f ls it) with
+          | .error (Sig.iter _ _) => pure IterSt.reeval
+          | .error e =>
+            -- the error is handed through together with a dummy iterator: the block never runs and
+            -- the final "end of iteration" check swallows a `break` that leaked out of the expression
+            if e.isBreak then pure (IterSt.single Val.null true) else throw e
+          | .ok v =>
+            match v with
+            | .list r l => pure (IterSt.list r l 0)
+            | .map r => do
+              let kvs ← getMap r
+              -- keys sorted by their string form
+              let keyed ← kvs.mapM fun (k, _) => do pure (← sprint k, k)
+              let sorted := sortBy (fun a b => bytesLt a.1 b.1) keyed
+              let rec dup : List (List Nat × Val) → Bool
+                | a :: b :: r => a.1 == b.1 || dup (b :: r)
+                | _ => false
+              if dup sorted then throw (Sig.unsupported "map keys with equal string forms: iteration order unspecified")
+              pure (IterSt.map r (sorted.map (·.2)))
+            | v => pure (IterSt.single v false))
+        iterLoop (iterNext f ls n it) (bindLoopVars ls n vars) (eval f ls body) f start)
+    else pure Val.null
 
 def evalTry : Nat → Nat → Node → M Val
   | 0, _, _ => throw Sig.fuel
   | f+1, sc, n => do
     let last ← (match n.children.getLast? with | some (some l) => pure l | _ => throw Sig.panic)
-    let fin : Option Node := if last.name == "finally" then some last else none
-    let finScope ← (match fin with
-      | some fi => do pure (some (← newChild sc (← scopeName fi)))
-      | none => pure none)
-    let r ← attemptE (tryBody f sc n)
-    -- deferred finally: result and error discarded
-    match fin, finScope with
-    | some fi, some fs =>
-      match ← attemptE (do eval f fs (← child fi 0)) with
-      | .error Sig.panic => throw Sig.panic
-      | .error Sig.fuel => throw Sig.fuel
-      | .error (Sig.unsupported w) => throw (Sig.unsupported w)
-      | _ => pure ()
-    | _, _ => pure ()
-    match r with
-    | .ok v => pure v
-    | .error e => throw e
+    let fin : Option (M Val) ← (
+      if last.name == "finally" then do
+        let fs ← newChild sc (← scopeName last)
+        pure (some (do eval f fs (← child last 0)))
+      else pure none)
+    let main : M Val := do
+      let tvs ← newChild sc (← scopeName n)
+      let handlers := (n.children.drop 1).filterMap fun c => match c with
+        | some c => if c.name == "except" then some (exceptHandler f sc c) else none
+        | none => some (fun _ => throw Sig.panic)
+      let oth : Option (M Val) :=
+        match (n.children.drop 1).find? fun c => match c with | some c => c.name == "otherwise" | none => false with
+        | some (some o) => some (do
+            let ovs ← newChild sc (← scopeName o)
+            eval f ovs (← child o 0))
+        | _ => none
+      tryCore (do eval f tvs (← child n 0)) handlers oth
+    tryFinally main fin
 
-def tryBody : Nat → Nat → Node → M Val
-  | 0, _, _ => throw Sig.fuel
-  | f+1, sc, n => do
-    let tvs ← newChild sc (← scopeName n)
-    match ← attemptE (eval f tvs (← child n 0)) with
-    | .ok v =>
-      -- otherwise
-      let oth := n.children.drop 1 |>.find? fun c => match c with | some c => c.name == "otherwise" | none => false
-      match oth with
-      | some (some o) =>
-        let ovs ← newChild sc (← scopeName o)
-        let _ ← eval f ovs (← child o 0)
-        pure v
-      | _ => pure v
-    | .error Sig.panic => throw Sig.panic
-    | .error Sig.fuel => throw Sig.fuel
-    | .error (Sig.unsupported w) => throw (Sig.unsupported w)
-    | .error e =>
-      let ty : String := match e with
-        | .err re _ => re.type
-        | .ret re _ => "UnexpectedError"      -- *returnValue is not a *RuntimeError
-        | _ => "UnexpectedError"
-      let _ := ty
-      exceptClauses f sc (n.children.drop 1) e ty
-
-def exceptClauses : Nat → Nat → List (Option Node) → Sig → String → M Val
-  | 0, _, _, _, _ => throw Sig.fuel
-  | _, _, [], e, _ => throw e
-  | f+1, sc, c :: rest, e, ty => do
-    let c ← (match c with | some c => pure c | none => throw Sig.panic)
-    if c.name != "except" then exceptClauses f sc rest e ty
+/-- tryRuntime.evalExcept for one except clause -/
+def exceptHandler : Nat → Nat → Node → Handler
+  | 0, _, _, _ => throw Sig.fuel
+  | f+1, sc, c, e => do
+    let k := c.children.length
+    let ty : String := match e with
+      | .err re _ => re.type
+      | .iter re _ => re.type
+      | _ => "UnexpectedError"
+    if k == 1 then
+      let evs ← newChild sc (← scopeName c)
+      let _ ← eval f evs (← child c 0)
+      pure (some Val.null)
+    else if k == 2 && (← child c 0).name != "string" then
+      let c0 ← child c 0
+      let var ← (if c0.name == "as" then do pure (← tokOf (← child c0 0)).val else do pure (← tokOf c0).val)
+      let evs ← newChild sc (← scopeName c)
+      let eo ← errObject e
+      match ← attemptE (setValue evs var eo) with
+      | .error e => if e.isFatal then throw e
+      | .ok _ => pure ()
+      let _ ← eval f evs (← child c 1)
+      pure (some Val.null)
     else
-      let k := c.children.length
-      if k == 1 then
+      -- typed clause (shape produced by the parser: strings, optional `as`, statements)
+      let kids ← c.children.mapM fun ch => match ch with | some ch => pure ch | none => throw Sig.panic
+      let strs := kids.takeWhile (·.name == "string")
+      let rest := kids.dropWhile (·.name == "string")
+      let (var, stm) ← (match rest with
+        | [st] => if st.name == "statements" then pure (none, st) else throw (Sig.unsupported "except clause shape")
+        | [a, st] =>
+          if a.name == "as" && st.name == "statements" then do pure (some (← tokOf (← child a 0)).val, st)
+          else throw (Sig.unsupported "except clause shape")
+        | _ => throw (Sig.unsupported "except clause shape"))
+      if ← typedMatch ty bytesToString (strs.map fun ch => eval f sc ch) then
         let evs ← newChild sc (← scopeName c)
-        let _ ← eval f evs (← child c 0)
-        pure Val.null
-      else if k == 2 then
-        let evs ← newChild sc (← scopeName c)
-        setValue evs (← tokOf (← child c 0)).val (← errObject e)
-        let _ ← eval f evs (← child c 1)
-        pure Val.null
-      else
-        -- typed clause
-        let mut hit := false
-        for ch in c.children do
-          let ch ← (match ch with | some ch => pure ch | none => throw Sig.panic)
-          if !hit && ch.name == "string" then
-            match ← eval f sc ch with
-            | .str s => if bytesToString s == ty then hit := true
-            | _ => pure ()
-        if hit then
-          let evs ← newChild sc (← scopeName c)
-          for ch in c.children do
-            let ch ← (match ch with | some ch => pure ch | none => throw Sig.panic)
-            if ch.name == "as" then setValue evs (← tokOf (← child ch 0)).val (← errObject e)
-          let stm ← (match c.children.getLast? with | some (some s) => pure s | _ => throw Sig.panic)
-          let _ ← eval f evs stm
-          pure Val.null
-        else exceptClauses f sc rest e ty
-
-def errObject : Sig → M Val
-  | .err re d => do
-    newMap [(.str (str "type"), .str (str re.type)), (.str (str "line"), .num (Float.ofNat re.line)),
-            (.str (str "data"), d)]
-  | _ => newMap [(.str (str "type"), .str (str "UnexpectedError"))]
+        match var with
+        | some v =>
+          let eo ← errObject e
+          match ← attemptE (setValue evs v eo) with
+          | .error e => if e.isFatal then throw e
+          | .ok _ => pure ()
+        | none => pure ()
+        let _ ← eval f evs stm
+        pure (some Val.null)
+      else pure none
 end
-
-end Ecal.Ev
-
-namespace Ecal.Ev
-open Ecal.Lex Ecal.Parse
 
 end Ecal.Ev
